@@ -74,8 +74,11 @@ func c14CloseCell(size, offset, fill int64, pop string, extra int64, cop string,
 				atomic.StoreInt64(&committed, int64(k))
 			}
 		case "ReadFrom":
-			k, _ := b.ReadFrom(&streamReader{seed: seed, pos: offset + fill, end: offset + fill + n, final: errStop})
-			atomic.StoreInt64(&committed, k)
+			// what the reader handed out bounds what can have been committed (the count ReadFrom
+			// returns is not used: it is 0 whenever the call ends while waiting for room)
+			sr := &streamReader{seed: seed, pos: offset + fill, end: offset + fill + n, final: errStop}
+			b.ReadFrom(sr)
+			atomic.StoreInt64(&committed, sr.pos-(offset+fill))
 		}
 	}()
 	if !waitParked(&pid, &pdone, 2*time.Second) || atomic.LoadInt64(&pdone) != 0 {
